@@ -1160,7 +1160,11 @@ namespace fixedmath
   inline fixed_t sin_angle_aprox(int32_t angle) noexcept
     {
     if(fixed_unlikely(angle < 0 || angle > 360) )
+      {
       angle = angle % 360;
+      if( angle < 0 ) //remainder has the sign of the dividend
+        angle += 360;
+      }
     return sin_angle_tab(angle);
     }
 
@@ -1172,7 +1176,11 @@ namespace fixedmath
   inline fixed_t cos_angle_aprox(int32_t angle) noexcept
     {
     if( fixed_unlikely( angle < 0 || angle > 360) )
+      {
       angle = angle % 360;
+      if( angle < 0 ) //remainder has the sign of the dividend
+        angle += 360;
+      }
     return cos_angle_tab(angle);
     }
     
